@@ -3,6 +3,8 @@ import KpModel.Db.MergeInv
 import KpModel.Db.MergeLemmas
 import KpModel.Db.MergeSpec
 import KpModel.Db.MergeNoPanic
+import KpModel.Db.MergeDelOk
+import KpModel.Db.MergeOk
 /-!
 # C16 — merge always terminates, succeeds on related replicas, and keeps the tree sound
 Property theorems only.  `merge_group`, the entry pass of `merge_deletions` and every lookup are structurally
@@ -152,5 +154,79 @@ theorem C16_refreshed_path_designates_group (r : Node) (path : List Nat) (cur : 
     exact absurd h4 this
   | group x c t cs =>
     exact ⟨.group x c t cs, by unfold findGroup; rw [h5]; rfl, h4⟩
+
+/-- **C16 (the deletion phase reports success)**: on every destination tree that is a group with pairwise distinct UUIDs below
+    it, for every source database and every list of destination tombstones, `merge_deletions` returns `Ok`: each tombstoned node
+    that `find_node_location` finds has its parent where that location says (`find_group` cannot fail) and is a child of it
+    (`remove_node` cannot fail), each removal leaves such a tree again, and the work queue drains within its fuel. -/
+theorem C16_deletion_phase_succeeds (now : Int) (dstTombs : List Tomb) (s : St) (src : Db)
+    (hr : s.root.isGroup = true) (hn : (uuidsL s.root.children).Nodup) :
+    ∃ r, mergeDeletions now dstTombs s src = .ok r :=
+  mergeDeletions_ok now dstTombs s src ⟨hr, hn⟩
+
+/-- **C16 (a merge can only fail in the group passes)**: on every destination that is a group with pairwise distinct UUIDs below
+    it, whenever `merge` returns an error the error was returned by the merge of the root group's own data or by one of the
+    `merge_group` passes over the source tree — never by `merge_deletions`, and never after the tree has been changed by a
+    deletion. -/
+theorem C16_merge_fails_only_in_group_passes (now : Int) (dst src : Db) (e : MErr)
+    (hr : dst.root.isGroup = true) (hn : (uuidsL dst.root.children).Nodup) (h : merge now dst src = .error e) :
+    mergeRoot now ⟨dst.root, []⟩ src.root = .error e
+    ∨ ∃ s1, mergeRoot now ⟨dst.root, []⟩ src.root = .ok s1
+        ∧ mergePasses now dst.tombs src.root (groupCount src.root + 1) s1 = .error e := by
+  unfold merge at h
+  dsimp only at h
+  cases h1 : mergeRoot now ⟨dst.root, []⟩ src.root with
+  | error e1 =>
+    rw [h1] at h
+    simp only [bind, Except.bind] at h
+    injection h with h; subst h
+    exact Or.inl rfl
+  | ok s1 =>
+    refine Or.inr ⟨s1, rfl, ?_⟩
+    rw [h1] at h
+    simp only [bind, Except.bind] at h
+    have hI1 := mergeRoot_inv now _ s1 src.root ⟨hr, hn⟩ h1
+    cases h2 : mergePasses now dst.tombs src.root (groupCount src.root + 1) s1 with
+    | error e2 =>
+      rw [h2] at h
+      dsimp only at h
+      injection h with h; subst h; rfl
+    | ok s2 =>
+      exfalso
+      rw [h2] at h
+      dsimp only at h
+      have hI2 := mergePasses_inv now dst.tombs src.root _ s1 s2 hI1 h2
+      obtain ⟨r, hr3⟩ := mergeDeletions_ok now dst.tombs s2 src hI2
+      rw [hr3] at h
+      obtain ⟨s3, t3⟩ := r
+      dsimp only at h
+      cases h
+
+/-- **C16 (merge reports success unless time stamps conflict)**: under the premises of `C16_merge_never_panics` (the two replicas
+    agree on which UUIDs are entries and which are groups, every entry version carries a modification time, the destination is
+    a group with pairwise distinct UUIDs below it), whenever `merge` does not return `Ok` the error is one of the three that
+    report conflicting time stamps — an entry or a group that differs between the replicas under one and the same modification
+    time, or a history holding two versions under one time.  None of the look-ups of the group passes and of the deletion phase
+    (`find_group`, `find_entry`, `remove_node`: the model's `findGroup`, `findEntry`, `generic`) fails, none of the `unwrap()`s
+    is reached, and the work queue drains: the path each `merge_group` frame uses designates a group whenever the frame may
+    create or move nodes (it is looked up again after every nested call, see `C16_refreshed_path_designates_group`), paths of
+    groups survive the removal of a node they do not run through, the replacement of an entry and the appending of a child
+    (`findGroup_updatePath`), and a moved node is found again where it was put (`relocate_ok`). -/
+theorem C16_merge_succeeds_unless_time_conflict {EI GI : List Nat} (now : Int) (dst src : Db)
+    (hr : dst.root.isGroup = true) (hn : (uuidsL dst.root.children).Nodup)
+    (hkg : allG (fun x _ _ => x ∉ EI) dst.root) (hke : allE (fun e => e.d.uuid ∉ GI) dst.root) (hte : allE TimedE dst.root)
+    (hse : allE (fun e => e.d.uuid ∈ EI ∧ e.d.uuid ∉ GI ∧ TimedE e) src.root) (hsg : allG (fun x _ _ => x ∈ GI ∧ x ∉ EI) src.root) :
+    (∃ r, merge now dst src = .ok r)
+    ∨ merge now dst src = .error .entryMtimeNotUpdated
+    ∨ merge now dst src = .error .groupMtimeNotUpdated
+    ∨ merge now dst src = .error .duplicateHistory := by
+  cases h : merge now dst src with
+  | ok r => exact Or.inl ⟨r, rfl⟩
+  | error e =>
+    right
+    rcases merge_errors now dst src ⟨⟨hr, hn⟩, hkg, hke, hte⟩ ⟨hse, hsg⟩ e h with h1 | h1 | h1
+    · subst h1; exact Or.inl rfl
+    · subst h1; exact Or.inr (Or.inl rfl)
+    · subst h1; exact Or.inr (Or.inr rfl)
 
 end Kp.Merge
